@@ -812,6 +812,7 @@ def run(ctx):
     run_ints(ctx, L, B)
     run_headers(ctx, L, B)
     run_bodies(ctx, L, B)
+    run_keepalive(ctx, L, B)
     run_end_to_end(ctx, L)
     B.flush()
 
@@ -839,6 +840,8 @@ def _run_case(ctx, L, B, case):
             check_respond_case(ctx, L, None, case['supported'], case.get('chunk', 0), case['header'], unhx(case.get('body', '-')) or b'<x/>')
     elif k == 'request':
         check_request_case(ctx, L, B, case['te'], case['cl'], case['ce'], case['sup'], unhx(case['wire']))
+    elif k == 'keepalive':
+        check_keepalive_sequence(ctx, L, B, [(a, b, unhx(c)) for a, b, c in case['steps']], case['chunk'])
     elif k == 'e2e':
         check_e2e(ctx, L, unhx(case['xml']), case['client_sup'], case['req_encs'], case['client_chunk'], case['server_sup'],
                   case['server_chunk'])
@@ -949,6 +952,98 @@ def check_respond_case(ctx, L, B, server_sup, chunk, ae, body):
         with toys_installed(L):
             got_toy, _ = impl_respond(L, server_sup, chunk, ae, body)
         B.add(f'respond {esl(server_sup)} {chunk} {es(ae)} {hx(body)}', got_toy, 'respond == do_POST/_compress_if_supported (toy codec)', case)
+
+
+class _NoClose(io.BytesIO):
+    def close(self):
+        pass
+
+
+def parse_responses(out):
+    """all HTTP responses a handler wrote on one connection: (status, headers, de-chunked body) each; None = unparsable rest"""
+    f = _NoClose(out)
+    res = []
+    while f.tell() < len(out):
+        r = http.client.HTTPResponse(types.SimpleNamespace(makefile=lambda *a, **k: f), method='POST')
+        try:
+            r.begin()
+            body = r.read()
+        except Exception:  # noqa: BLE001
+            res.append(None)
+            break
+        res.append((r.status, {k.lower(): v for k, v in r.getheaders()}, body))
+    return res
+
+
+def check_keepalive_sequence(ctx, L, B, steps, chunk):
+    """several requests on ONE keep-alive connection (one handler instance): every response must follow the Accept-Encoding of
+    its own request and the codings enabled at that time. steps = [(accept_encoding | None, enabled list, reply body)]"""
+    case = {'kind': 'keepalive', 'chunk': chunk, 'steps': [[ae, sup, hx(body)] for ae, sup, body in steps]}
+    server = types.SimpleNamespace(dispatcher=None, supported_encodings=list(steps[0][1]), chunk_size=chunk, logger=mock.MagicMock())
+    calls = []
+
+    class Comp:
+        def do_post(self, headers, path, peer_name, request_bytes):
+            i = len(calls)
+            calls.append(request_bytes)
+            server.supported_encodings = list(steps[i][1])     # the locally enabled codings change while the connection is open
+            return 200, 'OK', steps[i][2]
+    server.dispatcher = types.SimpleNamespace(get_instance=lambda elem: Comp())
+    raw = b''
+    for i, (ae, _, _) in enumerate(steps):
+        req = b'<r%d/>' % i
+        raw += raw_post([('Content-Length', str(len(req)))] + ([('Accept-Encoding', ae)] if ae is not None else []), req)
+    sock = FakeSock(raw)
+    r = WD.call(L.rh.DispatchingRequestHandler, sock, ('127.0.0.1', 50000), server)
+    ctx.case({'k': 'keepalive', **case}, nontrivial=len(steps) > 1)
+    if r[0] != 'ok':
+        ctx.fail('do_POST:' + ('hang' if r[0] == 'hang' else 'exception'), f'keep-alive sequence: {r!r:.200}', case)
+        return
+    resps = parse_responses(b''.join(sock.out))
+    if len(resps) != len(steps) or any(x is None for x in resps):
+        ctx.fail('keepalive:responses-missing', f'{len(steps)} requests on one connection, {len([x for x in resps if x])} parsable responses', case)
+        return
+    for i, ((ae, sup, body), (status, h, payload)) in enumerate(zip(steps, resps)):
+        ce = h.get('content-encoding')
+        ctx.count('keepalive:' + (f'step{min(i, 3)}:' + ('coded' if ce else 'identity')))
+        if ce is not None:
+            if ce not in sup:
+                ctx.fail('choice:not-enabled', f'request {i + 1} on the connection: response coded with {ce!r}, enabled at that time: {sup}', case)
+            if not declares_acceptable(ae, ce):
+                ctx.fail('choice:q0-coding-chosen', f'request {i + 1} on the connection: response coded with {ce!r} for Accept-Encoding {ae!r}', case)
+            try:
+                payload = L.CH.decompress_payload(ce, payload)
+            except Exception as ex:  # noqa: BLE001
+                ctx.fail('response:not-decodable', f'request {i + 1}: {type(ex).__name__}', case)
+                continue
+        if payload != body:
+            ctx.fail('response:body-lost', f'request {i + 1} on the connection: decoded response differs from the component answer', case)
+        if q_in_model_domain(ae):
+            B.add(f'choose {es(ae)} {esl(sup)}', ('ok ' + es(ce)) if ce is not None else 'none',
+                  f'choose(parseHeader h_i) sup_i == Content-Encoding of response i on a keep-alive connection', {**case, 'step': i})
+
+
+def run_keepalive(ctx, L, B):
+    rng = ctx.subrng('keepalive')
+    avail = list(L.CH.available_encodings)
+    sups = [avail, ['gzip'], [], [a for a in avail if 'lz4' in a], ['lz4', 'gzip']]
+    fixed = [
+        [('gzip', avail, b'<a/>'), ('gzip;q=0, identity', avail, b'<b/>'), ('identity', avail, b'<c/>'), (None, avail, b'<d/>')],
+        [('gzip', avail, b'<a/>'), ('gzip', [], b'<b/>'), ('gzip', ['gzip'], b'<c/>')],
+        [(None, avail, b'<a/>'), ('x-lz4', avail, b'<b/>'), ('gzip', avail, b'<c/>'), ('x-lz4;q=0.1, gzip;q=0.9', avail, b'<d/>')],
+        [('gzip, x-lz4', ['gzip'], b'<a/>'), ('gzip, x-lz4', [a for a in avail if 'lz4' in a] or ['gzip'], b'<b/>')],
+    ]
+    for steps in fixed:
+        for chunk in (0, 7):
+            check_keepalive_sequence(ctx, L, B, steps, chunk)
+    for _ in range(ctx.n(150, 1500)):
+        steps = []
+        for _ in range(rng.choice([2, 2, 3, 4])):
+            h = gen_header(rng)
+            if h is not None and (any(ord(c) > 255 or c in '\r\n\x00' for c in h) or h != h.strip(' \t') or h == ''):
+                h = rng.choice(['gzip', 'identity', 'gzip;q=0', None, 'x-lz4, gzip;q=0.5'])
+            steps.append((h, rng.choice(sups), gen_body(rng, rng.choice([0, 5, 200]))))
+        check_keepalive_sequence(ctx, L, B, steps, rng.choice([0, 0, 3, 512]))
 
 
 TE_VALUES = [None, 'chunked', 'Chunked', 'CHUNKED', ' chunked', 'chunked ', 'gzip, chunked', 'identity', '', 'chunke']
@@ -1165,6 +1260,8 @@ def search(ctx):
         run_chunks(ctx, L, B)
         if not ctx.failures:
             run_headers(ctx, L, B)
+        if not ctx.failures:
+            run_keepalive(ctx, L, B)
         if not ctx.failures:
             run_end_to_end(ctx, L)
         if not ctx.failures:
